@@ -1,8 +1,10 @@
 import Nri.Model.LibMem
 import Nri.Proofs.LibMem
+import Nri.Proofs.LibMemChk
 import Nri.Proofs.LibMemInv
 import Nri.Proofs.LibMemTrack
 import Nri.Proofs.LibMemUpd
+import Nri.Proofs.LibMemFit
 import Nri.Props.C06
 import Nri.Gen.LibmemFacts
 /-!
@@ -94,117 +96,13 @@ theorem move_to_superset_free_ge (s : St) (id : String) (z' : Mask)
 
 /-! ### success of overcommit handling means the handled zones fit -/
 
-theorem sortBy_nil_iff {α} (lt : α → α → Bool) (l : List α) : sortBy lt l = [] ↔ l = [] := by
-  constructor
-  · intro h
-    cases l with
-    | nil => rfl
-    | cons x xs =>
-      exfalso
-      have hlen : ∀ (l : List α) (acc : List α), (l.foldl (fun acc x => insertBy lt x acc) acc).length = acc.length + l.length := by
-        intro l
-        induction l with
-        | nil => intro acc; simp
-        | cons y ys ih =>
-          intro acc
-          simp only [List.foldl_cons, List.length_cons]
-          rw [ih]
-          have : (insertBy lt y acc).length = acc.length + 1 := by
-            induction acc with
-            | nil => simp [insertBy]
-            | cons a as iha => simp only [insertBy]; split <;> simp [iha]
-          omega
-      have := hlen (x :: xs) []
-      unfold sortBy at h
-      rw [h] at this
-      simp at this
-  · intro h; subst h; rfl
-
-/-- `checkOvercommit nodes = []` means: no zone of the zone table that intersects `nodes`
-(or any zone, if `nodes = 0`) is over its capacity. -/
-theorem checkOvercommit_nil (s : St) (nodes : Mask) (h : s.checkOvercommit nodes = []) :
-    ∀ z ∈ s.entries, (nodes = 0 ∨ z &&& nodes ≠ 0) → 0 ≤ s.zoneFree z := by
-  intro z hz hn
-  unfold St.checkOvercommit at h
-  simp only [List.map_eq_nil_iff] at h
-  rw [sortBy_nil_iff, sortBy_nil_iff] at h
-  have := List.filter_eq_nil_iff.1 h z hz
-  simp only [Bool.and_eq_true, Bool.or_eq_true, beq_iff_eq, bne_iff_ne, ne_eq, decide_eq_true_eq, not_and, Int.not_lt] at this
-  apply this
-  rcases hn with hn | hn
-  · exact Or.inl hn
-  · exact Or.inr hn
-
-theorem checkOvercommit_ambig (s : St) (nodes : Mask) (x : Bool) :
-    ({ s with ambig := x } : St).checkOvercommit nodes = s.checkOvercommit nodes := rfl
-
-theorem ocStep_done (nodes : Mask) (acc : St × List (Mask × Int) × Int × Bool × Nat) (c : Int × Nat)
-    (h : acc.2.2.2.1 = true → acc.1.checkOvercommit nodes = []) :
-    (St.ocStep nodes acc c).2.2.2.1 = true → (St.ocStep nodes acc c).1.checkOvercommit nodes = [] := by
-  unfold St.ocStep
-  split
-  · exact h
-  · rename_i hnd
-    simp only []
-    split
-    · intro hd; exact absurd hd hnd
-    · intro hd
-      rw [checkOvercommit_ambig]
-      simpa using hd
-
-theorem ocPass_done (s : St) (nodes : Mask) (oc : List (Mask × Int)) :
-    (s.ocPass nodes oc).2.2.2 = true → (s.ocPass nodes oc).1.checkOvercommit nodes = [] := by
-  unfold St.ocPass
-  simp only []
-  have key : ∀ (cells : List (Int × Nat)) (acc : St × List (Mask × Int) × Int × Bool × Nat),
-      (acc.2.2.2.1 = true → acc.1.checkOvercommit nodes = []) →
-      ((cells.foldl (St.ocStep nodes) acc).2.2.2.1 = true →
-        (cells.foldl (St.ocStep nodes) acc).1.checkOvercommit nodes = []) := by
-    intro cells
-    induction cells with
-    | nil => intro acc h; exact h
-    | cons c cs ih =>
-      intro acc h
-      simp only [List.foldl_cons]
-      exact ih _ (ocStep_done nodes acc c h)
-  exact key _ (s, oc, 0, false, 0) (by intro h; cases h)
-
-theorem resolveOvercommit_ok (nodes : Mask) :
-    ∀ (fuel : Nat) (s : St) (oc : List (Mask × Int)),
-      (s.resolveOvercommit nodes fuel oc).2 = none → (s.resolveOvercommit nodes fuel oc).1.checkOvercommit nodes = [] := by
-  intro fuel
-  induction fuel with
-  | zero => intro s oc h; simp [St.resolveOvercommit] at h
-  | succ n ih =>
-    intro s oc h
-    unfold St.resolveOvercommit at h ⊢
-    simp only [] at h ⊢
-    split
-    · rename_i hd
-      exact ocPass_done s nodes oc hd
-    · rename_i hd
-      simp only [hd] at h
-      split
-      · rename_i hm; simp [hm] at h
-      · rename_i hm
-        simp only [hm] at h
-        exact ih _ _ h
-
 /-- **Fit of the handled zones.** When overcommit handling for `nodes` succeeds, every zone in
-the allocator's zone table that intersects `nodes` holds no more than its capacity. -/
-theorem handleOvercommit_ok_fits (s : St) (nodes : Mask) (h : (s.handleOvercommit nodes).2 = none) :
+the allocator's zone table that intersects `nodes` holds no more than its capacity (proof:
+`Proofs/LibMemChk.lean`, through every loop of the resolution). -/
+theorem handled_zones_fit (s : St) (nodes : Mask) (h : (s.handleOvercommit nodes).2 = none) :
     ∀ z ∈ (s.handleOvercommit nodes).1.entries, (nodes = 0 ∨ z &&& nodes ≠ 0) →
-      0 ≤ (s.handleOvercommit nodes).1.zoneFree z := by
-  apply checkOvercommit_nil
-  unfold St.handleOvercommit at h ⊢
-  simp only [] at h ⊢
-  split
-  · rename_i he
-    rw [checkOvercommit_ambig]
-    simpa using he
-  · rename_i he
-    simp only [he] at h
-    exact resolveOvercommit_ok nodes _ _ _ h
+      0 ≤ (s.handleOvercommit nodes).1.zoneFree z :=
+  handleOvercommit_ok_fits s nodes h
 
 /-! ### the literal capacity clause is false (known finding) -/
 
@@ -372,5 +270,92 @@ theorem allocate_updates_exact (s : St) (h : HInv s) (r : Req) (res : Result)
     alGet res.updates id = some z ↔
       (id ≠ r.id ∧ ∃ q ∈ (s.Allocate r).1.reqs, q.id = id ∧ q.zone = z ∧ z ≠ zoneIn s id) :=
   Allocate_updates_exact s h.wf h.placed r res hok id z
+
+/-! ### histories: every assigned zone fits, after every operation
+
+The capacity clause for the zones that ARE assignments (the literal clause over all node sets is
+the known finding `every_set_fits_refuted`): by induction over arbitrary histories, not only
+for the zones handled in the last operation. -/
+
+/-- the request sizes of an operation are non-negative (the Go API takes them as limits ≥ 0) -/
+def Op.sizeOk : Op → Prop
+  | .allocate r => 0 ≤ r.size
+  | _ => True
+
+structure HFit (s : St) : Prop where
+  inv : HInv s
+  sizes : Sizes s
+  ent : Ent s          -- the zone table contains every assigned zone
+  fit : FitInv s       -- every assigned zone holds no more than its capacity
+
+theorem hfit_init (nodes : List Node) : HFit { nodes := nodes } :=
+  ⟨hinv_init nodes, (by intro q hq; cases hq), (by intro q hq; cases hq), (by intro q hq; cases hq)⟩
+
+theorem fit_of_reqs_eq (s s' : St) (h : FitInv s) (hr : s'.reqs = s.reqs) (hn : s'.nodes = s.nodes) : FitInv s' := by
+  intro q hq hz
+  rw [zoneFree_of_reqs s s' hr hn]
+  rw [hr] at hq
+  exact h q hq hz
+
+theorem step_fits (s : St) (h : HFit s) (op : Op) (hop : op.sizeOk) : HFit (s.step op) := by
+  have hinv' := (step_placement s h.inv op).1
+  cases op with
+  | allocate r =>
+    show HFit (s.Allocate r).1
+    cases hres : (s.Allocate r).2 with
+    | error e =>
+      obtain ⟨h1, _, _⟩ := allocate_fail_unchanged s h.inv.wf r e hres
+      exact ⟨hinv', (by intro q hq; rw [h1] at hq; exact h.sizes q hq), Allocate_fail_ent s h.inv.wf h.ent r e hres,
+        fit_of_reqs_eq s _ h.fit h1 (Allocate_nodes s h.inv.wf r)⟩
+    | ok res =>
+      obtain ⟨a, b, c⟩ := Allocate_fit s h.inv.wf h.inv.placed h.sizes h.ent h.fit r hop res hres
+      exact ⟨hinv', a, b, c⟩
+  | getOffer r =>
+    show HFit (s.GetOffer r).1
+    obtain ⟨h1, _, _⟩ := getOffer_pure s h.inv.wf r
+    exact ⟨hinv', (by intro q hq; rw [h1] at hq; exact h.sizes q hq), GetOffer_ent s h.inv.wf h.ent r,
+      fit_of_reqs_eq s _ h.fit h1 (GetOffer_nodes s h.inv.wf r)⟩
+  | realloc id nodes types =>
+    show HFit (s.Realloc id nodes types).1
+    cases hres : (s.Realloc id nodes types).2 with
+    | error e =>
+      obtain ⟨h1, _, _⟩ := realloc_spec s h.inv.wf id nodes types e hres
+      exact ⟨hinv', (by intro q hq; rw [h1] at hq; exact h.sizes q hq), Realloc_fail_ent s h.inv.wf h.ent id nodes types e hres,
+        fit_of_reqs_eq s _ h.fit h1 (Realloc_nodes s h.inv.wf id nodes types)⟩
+    | ok res =>
+      obtain ⟨a, b, c⟩ := Realloc_fit s h.inv.wf h.inv.placed h.sizes h.ent h.fit id nodes types res hres
+      exact ⟨hinv', a, b, c⟩
+  | release id =>
+    show HFit (s.Release id).1
+    cases hres : (s.Release id).2 with
+    | error e =>
+      have hsame : (s.Release id).1 = s := by
+        unfold St.Release at hres ⊢
+        cases hr : s.req? id with
+        | none => rfl
+        | some r =>
+          simp only [hr] at hres ⊢
+          split
+          · rfl
+          · rename_i hz; simp [hz] at hres
+      rw [hsame]; exact h
+    | ok u =>
+      obtain ⟨h1, _⟩ := release_ok s id hres
+      obtain ⟨a, c⟩ := Release_inv s h.sizes h.ent h.fit id h1 (Release_nodes s id)
+      exact ⟨hinv', a, Release_ent s h.ent id, c⟩
+
+/-- **every history** of Allocate / GetOffer / Realloc / Release with non-negative sizes, on every
+node set and distance matrix: after every operation every assigned zone holds no more than its
+capacity (and the placement invariant of `run_placement` holds). -/
+theorem run_fits (nodes : List Node) (ops : List Op) (hops : ∀ op ∈ ops, op.sizeOk) :
+    HFit (St.run { nodes := nodes } ops) := by
+  unfold St.run
+  exact foldl_inv_mem HFit St.step ops _ (fun a x hx h => step_fits a h x (hops x hx)) (hfit_init nodes)
+
+-- non-vacuity: the 3-allocation history above satisfies the hypotheses; zone {0} is full afterwards
+example : (St.run { nodes := exampleSt.nodes }
+    [.allocate { id := "res", size := 60, aff := 1, types := 0, strict := false, prio := 32767, created := 1 },
+     .allocate { id := "b", size := 30, aff := 1, types := 0, strict := false, prio := 1024, created := 2 },
+     .allocate { id := "g", size := 30, aff := 1, types := 0, strict := false, prio := 16384, created := 3 }]).zoneFree 1 = 10 := by rfl
 
 end Nri.LibMem
